@@ -88,7 +88,8 @@ TimeWellFormed(t) ==
     /\ n = 4 => t.f[2][2] = 2 /\ t.f[1][2] = 1                  \* D:HH
 (* Not decided by the property text (kept out of every universe): three or more hour digits       *)
 (* ("100:00:00"), two or more day digits.  Field VALUES are not restricted by the formats (the     *)
-(* universes keep minutes and seconds below 60 and hours of the day form below 24).               *)
+(* universes keep minutes and seconds below 60 and hours of the day form below 24; the hours of   *)
+(* the HOUR form go up to 99, e.g. the documented "48:00:00").                                     *)
 TimeInScope(t) ==
     LET n == Len(t.f) IN
     /\ (n = 3 /\ \A i \in 1..3 : t.f[i][2] >= 1) => t.f[1][2] <= 2
@@ -102,6 +103,34 @@ Seconds(t) ==
         d == IF n >= 4 THEN t.f[n - 3][1] ELSE 0
     IN  ((d * 24 + h) * 60 + m) * 60 + s
 TimeCmp(a, b) == Sign(Seconds(a) - Seconds(b))
+
+(* FIELD WEIGHTS.  Counted from the right the fields weigh 1 s, 60 s, 3600 s and 86400 s: the steps    *)
+(* between adjacent fields are 60, 60 and 24 -- NOT one uniform base.  `Seconds` above is the Horner    *)
+(* form of the weighted sum below (MC_Resources checks that the two agree on every universe).           *)
+(* SecondsBy(t, w) is the duration under an arbitrary weight table w; it is used to state what a wrong  *)
+(* table would get wrong (MC_Resources!Discriminates), never to decide a case.                          *)
+Steps       == <<60, 60, 24>>                               \* s per min, min per h, h per day
+WeightsOf(st) == <<1, st[1], st[1] * st[2], st[1] * st[2] * st[3]>>
+FieldWeight == WeightsOf(Steps)                             \* <<1, 60, 3600, 86400>>
+RECURSIVE WeightedSum(_, _, _)
+WeightedSum(f, w, i) ==                                     \* the i rightmost fields of f
+    IF i = 0 THEN 0 ELSE f[Len(f) - i + 1][1] * w[i] + WeightedSum(f, w, i - 1)
+SecondsBy(t, w) == WeightedSum(t.f, w, Len(t.f))
+
+(* RE-SPELLING.  One duration has several spellings: D:HH:MM:SS = (24*D+HH):MM:SS and MM:SS = 0:MM:SS.  *)
+(* HourForm(t) is the hour-form reading <<hours, minutes, seconds>> of any well-formed t (a plain      *)
+(* triple of numbers; the hours may need any number of digits).  For spellings that carry (minutes and *)
+(* seconds below 60) the order by duration is the lexicographic order of these triples, which involves *)
+(* no weight of minutes or seconds at all: comparing wall times must not depend on the FORMAT the      *)
+(* operands happen to be written in (FormatFree; operands of one combine_max call may mix formats).    *)
+HourForm(t) ==
+    LET n == Len(t.f)
+    IN  << (IF n >= 4 THEN 24 * t.f[n - 3][1] ELSE 0) + (IF n >= 3 THEN t.f[n - 2][1] ELSE 0),
+           t.f[n - 1][1], t.f[n][1] >>
+Carried(t) == t.f[Len(t.f)][1] < 60 /\ t.f[Len(t.f) - 1][1] < 60
+LexCmp3(a, b) == IF a[1] # b[1] THEN Sign(a[1] - b[1])
+                 ELSE IF a[2] # b[2] THEN Sign(a[2] - b[2]) ELSE Sign(a[3] - b[3])
+FormatFree(a, b) == (Carried(a) /\ Carried(b)) => TimeCmp(a, b) = LexCmp3(HourForm(a), HourForm(b))
 
 ---------------------------------------------------------------------------
 (* RESOURCES *)
